@@ -106,7 +106,7 @@ def shards(tier):
 
 
 def run_shard(spec, ctx):
-    run_given(DEC.cases(thorough=ctx.thorough, heavy=True), body, ctx, ctx.pick(120, 640))
+    run_given(DEC.cases(thorough=ctx.thorough, heavy=True), body, ctx, ctx.pick(120, 380))
 
 
 def replay(data, col):
